@@ -21,7 +21,7 @@ RULE = ("malformed stream: sequences of line deletions, duplications, swaps, fra
         "non-trivial = an input that raises, or a mutated input that still parses; distinct by text")
 
 FRAGS = ["[Song]", "{", "}", "[SyncTrack]", "[Events]", "[ExpertSingle]", "[Foo]", "  0 = B 0", "  0 = B 120000", "  5 = B 1", "  0 = TS 4",
-         "  0 = TS 4 63", "  0 = N 5 0", "  0 = N 7 10", "  3 = N 4 99999999", "  0 = S 2 0", "  0 = E solo", "  0 = A 99999999",
+         "  0 = TS 4 63", "  0 = TS 4 7", "  8 = TS 3 9", "  0 = N 5 0", "  0 = N 7 10", "  3 = N 4 99999999", "  0 = S 2 0", "  0 = E solo", "  0 = A 99999999",
          '  0 = E "lyric x"', "  Resolution = 0", "  Resolution = 192", "  Player2 = foo", "", "   ", " = ", "  0 = N 6 0", "  7 = S 2 3",
          "  99999999 = B 99999999", "  0 = TS 0 0", "  1 = TS 3", "  Offset = x", "  Resolution = 1", "  2 = N 0 5", "  2 = N 5 0", "  2 = N 7 0",
          '  4 = E "section "', "[HardDrums]", "  0 = B 1", "  1 = B 0", "  Difficulty = 99999999",
@@ -146,6 +146,14 @@ def enumerated(ctx):
                         + "}\n[ExpertSingle]\n{\n" + tail + "}\n")
                 o, rend = render_all(text)
                 res.append((text, True, o, rend))
+    # every signature exponent a line can write within practical bounds (the denominator is two to that power, whatever it is), on the
+    # first signature and on a later one, and every small numerator
+    for ex in list(range(0, 70)) + [100, 255, 256, 1000]:
+        for first in (True, False):
+            body = ([f"  0 = TS 4 {ex}"] if first else ["  0 = TS 4", f"  192 = TS {1 + ex % 9} {ex}"]) + ["  0 = B 120000"]
+            text = "[Song]\n{\n  Resolution = 192\n}\n[SyncTrack]\n{\n" + "\n".join(body) + "\n}\n[Events]\n{\n}\n[ExpertSingle]\n{\n  0 = N 0 0\n}\n"
+            o, rend = render_all(text)
+            res.append((text, True, o, rend))
     return res
 
 
